@@ -22,13 +22,13 @@ RULE = ("grids of 1-4 parameters x 1-4 values (scalars, strings, lists, tuples, 
         "scenarios a failing execution is injected at EVERY batch position in turn (constructor or system); non-trivial "
         "= >=2 simulated workers with a completion order different from submission order, or an injected failure; "
         "distinct = (grid shape, repetitions, processes, collector form, completion permutation, failure plan)"
-        "; also: a second batch in the same process, reused / pre-built / sibling-edited ParameterLists, one-shot collector iterables, models with their own `timestep` attribute, failure classes incl. StopIteration, KeyError ... and the package's own exceptions (exceptions cross the pickle boundary too); collectors that are falsy while empty (__len__) or rebind their records list on every collection, parameters named like the batching code's own arguments (max_timesteps, model_cls, ...); rare switch for known finding F11; fault pool.kill_at_terminate: workers killed by Pool.terminate() - fatal (hang) when one is still running or sending")
+        "; also: a second batch in the same process, reused / pre-built / sibling-edited ParameterLists, one-shot collector iterables, models with their own `timestep` attribute, failure classes incl. StopIteration, KeyError ... and the package's own exceptions (exceptions cross the pickle boundary too); collectors that are falsy while empty (__len__) or rebind their records list on every collection, executions that run a serial batch of another model class themselves (re-entrancy), parameters named like the batching code's own arguments (max_timesteps, model_cls, ...); rare switch for known finding F11; fault pool.kill_at_terminate: workers killed by Pool.terminate() - fatal (hang) when one is still running or sending")
 COMPONENTS = {"real": ["ECAgent.Batching.batch_run", "_run_model_for_batch", "_build_model_from_kwargs", "ParameterList",
                        "ECAgent.Core.Model / SystemManager", "ECAgent.Collectors.Collector",
                        "multiprocessing.Pool (real-pool arm only, schedule not controlled)"],
               "stub": ["multiprocessing.Pool -> simkit.simpool.SimPool (discrete-event pool, pickle boundary kept)",
                        "models/systems/collectors are harness workloads (props/workloads.py)"]}
-PROBES = ["collectors_rebinding_their_records", "collectors_falsy_while_empty", "parameter_named_like_a_batching_argument", "error_surfaced_while_other_workers_busy", "completion_reordered", "all_results_from_one_worker", "tie_in_finish_times", "fail_first", "fail_last",
+PROBES = ["executions_running_batches_of_their_own", "collectors_rebinding_their_records", "collectors_falsy_while_empty", "parameter_named_like_a_batching_argument", "error_surfaced_while_other_workers_busy", "completion_reordered", "all_results_from_one_worker", "tie_in_finish_times", "fail_first", "fail_last",
           "max_ts_at_completion", "max_ts_below_completion", "max_ts_zero", "reps_single_combination",
           "collectors_none", "collectors_empty_list", "collectors_invalid", "parameterlist_input", "serial_order_checked",
           "second_batch_same_process", "parameterlist_reused_edit_returned", "parameterlist_reused_grid_search_first", "sibling_parameterlist_edited",
@@ -155,7 +155,7 @@ def generate(rng, tier):
         # fault: a worker is killed by Pool.terminate() while it is still sending its result (only matters when the code
         # under test terminates a pool whose workers are busy - e.g. by leaving `with Pool(...)` on an exception)
         pool["kill_mid_send"] = rng.random() < 0.6
-    return {"falsy_collectors": rng.random() < 0.15, "rebinding_collectors": rng.random() < 0.12, "sibling": rng.random() < 0.15, "shadow_timestep": rng.choice([None, None, None, None, 0.25, 2.0, 7]),
+    return {"nested_batches": rng.random() < 0.1, "falsy_collectors": rng.random() < 0.15, "rebinding_collectors": rng.random() < 0.12, "sibling": rng.random() < 0.15, "shadow_timestep": rng.choice([None, None, None, None, 0.25, 2.0, 7]),
             "prebuild": prebuild, "second": second, "grid": grid, "via": rng.choice(["dict", "plist"]), "reps": reps, "max_ts": max_ts, "collectors": coll,
             "processes": procs, "base_stop": base_stop, "spread": spread, "pool": pool,
             "fail": fail}
@@ -263,7 +263,9 @@ def one_batch(ctx, sc, fail, label):
     E = [W.sig_of(c) for c in combos] * reps
     W.reset({"base_stop": sc["base_stop"], "spread": sc["spread"], "fail": fail, "collectors_defined": COLLECTORS,
              "shadow_timestep": sc.get("shadow_timestep"), "falsy_collectors": sc.get("falsy_collectors"),
-             "rebinding_collectors": sc.get("rebinding_collectors")})
+             "rebinding_collectors": sc.get("rebinding_collectors"), "nested_batches": sc.get("nested_batches")})
+    if sc.get("nested_batches"):
+        ctx.probe("executions_running_batches_of_their_own")
     if sc.get("rebinding_collectors"):
         ctx.probe("collectors_rebinding_their_records")
     if sc.get("falsy_collectors"):
